@@ -19,15 +19,27 @@
 (***************************************************************************)
 EXTENDS Integers, Sequences, FiniteSets, TLC
 
-CONSTANTS Keys,         \* pubkeys
-          Static,       \* the static whitelist (service key + pubkey_whitelist)
-          Targets,      \* the possible results of the allow-list queries (sets of keys)
-          AsFound
+CONSTANTS
+    \* @type: Set(Str);
+    Keys,         \* pubkeys
+    \* @type: Set(Str);
+    Static,       \* the static whitelist (service key + pubkey_whitelist)
+    \* @type: Set(Set(Str));
+    Targets,      \* the possible results of the allow-list queries (sets of keys)
+    \* @type: Bool;
+    AsFound
 
-VARIABLES allow,        \* ALLOWED_PUBKEYS
-          old, new,     \* the allow list before the refresh in progress / the one being installed
-          pc,           \* refresher: "idle" | "cleared" | "updated" | "added" (as found) / "merged" (repaired)
-          reads         \* the last observation of a validator thread: key, answer, and old/new at that instant
+VARIABLES
+    \* @type: Set(Str);
+    allow,        \* ALLOWED_PUBKEYS
+    \* @type: Set(Str);
+    old,          \* the allow list before the refresh in progress
+    \* @type: Set(Str);
+    new,          \* the one being installed
+    \* @type: Str;
+    pc,           \* refresher: "idle" | "computed" | "cleared" | "updated" (as found) / "merged" (repaired)
+    \* @type: Set({key: Str, allowed: Bool, old: Set(Str), new: Set(Str), busy: Bool});
+    reads         \* the last observation of a validator thread: key, answer, and old/new at that instant
 
 vars == <<allow, old, new, pc, reads>>
 
@@ -60,6 +72,7 @@ Next == \/ \E t \in Targets : Start(t)
 Spec == Init /\ [][Next]_vars
 
 \* what a reader may be told while the list goes from o to n (at rest o = n = the installed list)
+\* @type: ({key: Str, allowed: Bool, old: Set(Str), new: Set(Str), busy: Bool}) => Bool;
 ReadOK(r) ==
     LET o == IF r.busy THEN r.old ELSE r.new
         n == r.new IN
@@ -69,4 +82,18 @@ ReadOK(r) ==
 C16_NoEmptyWindow == \A r \in reads : ReadOK(r)
 \* at rest the list is exactly the query result plus the static whitelist
 C16_ListExact == pc = "idle" => allow = new
+
+----------------------------------------------------------------------------
+(* An inductive invariant of the repaired refresher (AsFound = FALSE), discharged by Apalache for every state that
+   satisfies it - reachable or not - over the constants of MC_DynLists_ind.tla:
+     apalache-mc check --init=IndInv --inv=IndInv --length=1   (consecution)   and   --init=Init --inv=IndInv --length=0
+   IndInv implies C16_NoEmptyWindow and C16_ListExact. *)
+Shape(s) == s \subseteq Keys /\ (s = {} \/ Static \subseteq s)
+IndInv ==
+    /\ Shape(allow) /\ Shape(old) /\ Shape(new)
+    /\ pc \in {"idle", "computed", "merged"}
+    /\ (pc = "idle" => allow = new)
+    /\ (pc = "computed" => allow = old)
+    /\ (pc = "merged" => allow = old \cup new)
+    /\ \A r \in reads : r.key \in Keys /\ r.old \subseteq Keys /\ r.new \subseteq Keys /\ ReadOK(r)
 =============================================================================
